@@ -89,10 +89,28 @@ func isMembership(prog *load.Program, fn *types.Func, pi int, depth int) bool {
 						return true
 					}
 				}
+				// a moq search helper driven by a predicate `elem.key == param`
+				for _, a := range x.Args {
+					if lit, ok := ast.Unparen(a).(*ast.FuncLit); ok && len(lit.Body.List) == 1 {
+						if rs, ok := lit.Body.List[0].(*ast.ReturnStmt); ok && len(rs.Results) == 1 && eqParam(rs.Results[0]) && searchesWithPredicate(prog, cf) {
+							return true
+						}
+					}
+				}
 			}
 		}
 		return false
 	}
+	// variables that hold a membership answer (v, ok := search(param))
+	answerVars := map[types.Object]bool{}
+	ast.Inspect(d.Body, func(y ast.Node) bool {
+		if as, ok := y.(*ast.AssignStmt); ok && len(as.Rhs) == 1 && answer(as.Rhs[0]) {
+			if lid, ok := ast.Unparen(as.Lhs[len(as.Lhs)-1]).(*ast.Ident); ok && lid.Name != "_" {
+				answerVars[info.ObjectOf(lid)] = true
+			}
+		}
+		return true
+	})
 	// shape 1: a single return of an answer (possibly through a local defined from one)
 	okAll, n := true, 0
 	found := false
@@ -166,14 +184,65 @@ func isMembership(prog *load.Program, fn *types.Func, pi int, depth int) bool {
 			// a "yes" (an element, true, an index): it must sit under `key == param`, or directly after
 			// `if key != param { continue }`, inside a loop
 			guarded := false
+			viaAnswer := false
 			for _, enc := range enclosing(d.Body, rs) {
 				if is, ok := enc.(*ast.IfStmt); ok && within(is.Body, rs) {
 					for _, c := range conjuncts(is.Cond) {
 						if eqParam(c) {
 							guarded = true
 						}
+						if id, ok := ast.Unparen(c).(*ast.Ident); ok && answerVars[info.ObjectOf(id)] {
+							viaAnswer = true
+						}
 					}
 				}
+			}
+			// ... or it follows, in its block, `if <answer says no> { return <no> }` (i < 0, !ok, i == -1)
+			if !viaAnswer {
+				mentionsAnswer := func(e ast.Expr) bool {
+					hit := false
+					ast.Inspect(e, func(y ast.Node) bool {
+						if id, ok := y.(*ast.Ident); ok && answerVars[info.ObjectOf(id)] {
+							hit = true
+						}
+						return !hit
+					})
+					return hit
+				}
+				ast.Inspect(d.Body, func(y ast.Node) bool {
+					blk, ok := y.(*ast.BlockStmt)
+					if !ok {
+						return true
+					}
+					at := -1
+					for i, st := range blk.List {
+						if st == ast.Stmt(rs) {
+							at = i
+						}
+					}
+					for i := 0; i < at; i++ {
+						is, ok := blk.List[i].(*ast.IfStmt)
+						if !ok || is.Else != nil || len(is.Body.List) == 0 || !mentionsAnswer(is.Cond) {
+							continue
+						}
+						if ret, ok := is.Body.List[len(is.Body.List)-1].(*ast.ReturnStmt); ok {
+							no := len(ret.Results) > 0
+							for _, r := range ret.Results {
+								if c, isC := constIntOf(info, r); !(isConstFalseOrNil(info, r) || isC && c < 0) {
+									no = false
+								}
+							}
+							if no {
+								viaAnswer = true
+							}
+						}
+					}
+					return true
+				})
+			}
+			if viaAnswer {
+				found = true
+				return true
 			}
 			if !guarded {
 				ast.Inspect(d.Body, func(y ast.Node) bool {
@@ -242,8 +311,17 @@ func isConstTrue(info *types.Info, e ast.Expr) bool {
 // The candidates are pairwise distinct and each search says yes for finitely many of them, so that
 // iteration comes (the loop's purity until exit is a separate rule).
 func numberingLoop(prog *load.Program, info *types.Info, fd *ast.FuncDecl, fs *ast.ForStmt) (bool, string) {
+	if fs.Cond != nil {
+		return false, ""
+	}
 	inc, ok := fs.Post.(*ast.IncDecStmt)
-	if !ok || inc.Tok != token.INC || fs.Cond != nil {
+	var stepNode ast.Node = fs.Post
+	if fs.Post == nil && len(fs.Body.List) > 0 {
+		// `for { …; n++ }`: the step is the last statement of the body
+		inc, ok = fs.Body.List[len(fs.Body.List)-1].(*ast.IncDecStmt)
+		stepNode = inc
+	}
+	if !ok || inc == nil || inc.Tok != token.INC {
 		return false, ""
 	}
 	cid, ok := ast.Unparen(inc.X).(*ast.Ident)
@@ -288,6 +366,14 @@ func numberingLoop(prog *load.Program, info *types.Info, fd *ast.FuncDecl, fs *a
 	})
 	// search calls on a candidate, and the bool variables that hold their answers
 	isSearch := func(e ast.Expr) bool {
+		// a lookup of the candidate in a map (maps are finite collections)
+		if ix, ok := ast.Unparen(e).(*ast.IndexExpr); ok {
+			if t := info.TypeOf(ix.X); t != nil {
+				if _, isMap := t.Underlying().(*types.Map); isMap && mentionsItoa(ix.Index) {
+					return true
+				}
+			}
+		}
 		call, ok := ast.Unparen(e).(*ast.CallExpr)
 		if !ok {
 			return false
@@ -318,6 +404,10 @@ func numberingLoop(prog *load.Program, info *types.Info, fd *ast.FuncDecl, fs *a
 			if isSearch(x) {
 				nSearch++
 			}
+		case *ast.IndexExpr:
+			if isSearch(x) {
+				nSearch++
+			}
 		}
 		return true
 	})
@@ -342,13 +432,10 @@ func numberingLoop(prog *load.Program, info *types.Info, fd *ast.FuncDecl, fs *a
 				return true, true, false
 			}
 		}
-		// counter == constant: a one-shot branch (counter != constant: all the other iterations)
-		if be, ok := e.(*ast.BinaryExpr); ok && (be.Op == token.EQL || be.Op == token.NEQ) {
-			for _, pair := range [][2]ast.Expr{{be.X, be.Y}, {be.Y, be.X}} {
-				if id, ok := ast.Unparen(pair[0]).(*ast.Ident); ok && info.ObjectOf(id) == counter && info.Types[pair[1]].Value != nil {
-					return true, be.Op == token.NEQ, be.Op == token.EQL
-				}
-			}
+		// comparisons of the counter with constants, for a counter beyond all of them (what holds only for
+		// small counters holds in finitely many iterations)
+		if m, t, f := largeCounter(info, counter, e); m {
+			return true, t, f
 		}
 		return false, false, false
 	})
@@ -360,7 +447,7 @@ func numberingLoop(prog *load.Program, info *types.Info, fd *ast.FuncDecl, fs *a
 		return false, ""
 	}
 	r := f.Explore(bb, bi, cfgx.Cuts{Decide: dec})
-	if r.Passed(fs.Post) {
+	if r.Passed(stepNode) {
 		return false, ""
 	}
 	return true, "numbering loop: the candidates built from strconv.Itoa(" + cid.Name + ") are pairwise distinct, each search is a membership test over a finite collection, and the iteration in which every search fails leaves the loop"
@@ -423,4 +510,83 @@ func constantInt64(tv types.TypeAndValue) (int64, bool) {
 		return 0, false
 	}
 	return constant.Int64Val(tv.Value)
+}
+
+// largeCounter evaluates `counter ⋈ constant` for a counter larger than every constant.
+func largeCounter(info *types.Info, counter types.Object, e ast.Expr) (matched, canTrue, canFalse bool) {
+	be, ok := ast.Unparen(e).(*ast.BinaryExpr)
+	if !ok {
+		return false, false, false
+	}
+	isC := func(x ast.Expr) bool {
+		id, ok := ast.Unparen(x).(*ast.Ident)
+		return ok && info.ObjectOf(id) == counter
+	}
+	isK := func(x ast.Expr) bool { return info.Types[x].Value != nil }
+	op := be.Op
+	switch {
+	case isC(be.X) && isK(be.Y):
+	case isC(be.Y) && isK(be.X):
+		switch op { // mirror: k op n  ==  n op' k
+		case token.LSS:
+			op = token.GTR
+		case token.GTR:
+			op = token.LSS
+		case token.LEQ:
+			op = token.GEQ
+		case token.GEQ:
+			op = token.LEQ
+		}
+	default:
+		return false, false, false
+	}
+	var v bool
+	switch op {
+	case token.GTR, token.GEQ, token.NEQ:
+		v = true
+	case token.LSS, token.LEQ, token.EQL:
+		v = false
+	default:
+		return false, false, false
+	}
+	return true, v, !v
+}
+
+// searchesWithPredicate: the moq function ranges over a collection parameter and calls a function-typed
+// parameter on the elements (find, findValue, firstIndex ...).
+func searchesWithPredicate(prog *load.Program, fn *types.Func) bool {
+	d := prog.Decl(fn.Origin())
+	if d == nil || d.Body == nil {
+		return false
+	}
+	info := prog.Info(fn.Pkg())
+	hasRange, callsParam := false, false
+	funcParams := map[types.Object]bool{}
+	for _, f := range d.Type.Params.List {
+		for _, nm := range f.Names {
+			if _, ok := info.TypeOf(f.Type).Underlying().(*types.Signature); ok {
+				funcParams[info.Defs[nm]] = true
+			}
+		}
+	}
+	ast.Inspect(d.Body, func(n ast.Node) bool {
+		switch x := n.(type) {
+		case *ast.RangeStmt:
+			hasRange = true
+		case *ast.CallExpr:
+			if id, ok := ast.Unparen(x.Fun).(*ast.Ident); ok && funcParams[info.ObjectOf(id)] {
+				callsParam = true
+			}
+			// delegation to the slices package with the predicate
+			if cf, ok := typeutil.Callee(info, x).(*types.Func); ok && cf.Pkg() != nil && cf.Pkg().Path() == "slices" {
+				for _, a := range x.Args {
+					if id, ok := ast.Unparen(a).(*ast.Ident); ok && funcParams[info.ObjectOf(id)] {
+						hasRange, callsParam = true, true
+					}
+				}
+			}
+		}
+		return true
+	})
+	return hasRange && callsParam
 }
